@@ -16,7 +16,8 @@ RULE = (
     "GHEManager.find_design + prepare_results run at L2 (surrogate long-time g; a few at L3). Oracle: number_of_boreholes == "
     "BoreFieldData rows, total_drilling == N x H (1e-12), max/min HP EFT in the JSON summary and in the text summary equal a "
     "fresh-object simulation of the reported field at the reported height (1e-3 K; text +-0.0005 rounding), every search-log "
-    "row satisfies excess == max(maxEFT - upper, lower - minEFT) (1e-12). Non-trivial = any completed run; distinct by "
+    "row satisfies excess == max(maxEFT - upper, lower - minEFT) (1e-12). reports_after_hourly_size: the selected GHE is sized "
+    "again with the hourly method (12-month horizons) and the OutputManager summary must equal a fresh hourly simulation. Non-trivial = any completed run; distinct by "
     "(outcome class, method, pipe, N, rounded H)."
 )
 ASSUMPTIONS = ["fresh-object simulation follows the tool's documented pipeline (see C01)"]
@@ -112,6 +113,53 @@ def check_l3(case, rec):
     _check(case, rec, "L3")
 
 
+def check_after_hourly(case, rec):
+    """the workflow the package documents: select the field with the hybrid method, size the selected GHE again with the
+    hourly method, then report -- the summary must describe that last sizing"""
+    from ghedesigner.enums import TimestepType
+    from ghedesigner.output import OutputManager
+
+    out = gs.run_design(case, "L2")
+    if out.error is not None:
+        rec.cls(f"no_design({type(out.error).__name__})")
+        return
+    s = out.search
+    hyb = (float(max(s.ghe.hp_eft)), float(min(s.ghe.hp_eft)))
+    with warnings.catch_warnings(), gs.layer_ctx("L2"):
+        warnings.simplefilter("ignore")
+        try:
+            guarded(s.ghe.size, method=TimestepType.HOURLY, allow=(ValueError,), what="GHE.size(HOURLY)")
+        except ValueError:
+            rec.cls("hourly_sizing_rejected(ValueError)")
+            return
+        res = guarded(OutputManager, s, 0.0, "p", "n", "a", "i", load_method=TimestepType.HOURLY, what="OutputManager(HOURLY)")
+    d = res.output_dict
+    n = d["ghe_system"]["number_of_boreholes"]
+    h = float(d["ghe_system"]["active_borehole_length"]["value"])
+    if h != float(s.ghe.bhe.b.H) or n != len(out.coords):
+        raise Violation("reported field / height differ from the sized object", sig={"kind": "field_mismatch", "after": "hourly_size"})
+    rmx = float(d["simulation_results"]["max_hp_eft"]["value"])
+    rmn = float(d["simulation_results"]["min_hp_eft"]["value"])
+    fmx, fmn, _ = guarded(gs.fresh_simulate, case, out.coords, h, "L2", method="HOURLY", what="fresh hourly re-simulation")
+    err = max(abs(rmx - fmx), abs(rmn - fmn))
+    rec.note_max("max_reported_vs_fresh_K(after_hourly)", err)
+    if err > 1e-3:
+        raise Violation(f"after an hourly sizing the summary reports max/min HP EFT {rmx:.4f}/{rmn:.4f} C, the reported field "
+                        f"({n} boreholes) at the reported height {h:.4f} m gives {fmx:.4f}/{fmn:.4f} C with the hourly method "
+                        f"(the earlier hybrid run had {hyb[0]:.4f}/{hyb[1]:.4f})",
+                        sig={"kind": "stale_temperatures", "after": "hourly_size"})
+    rec.cls("method_" + case["method"])
+    if max(abs(hyb[0] - fmx), abs(hyb[1] - fmn)) > 1e-3:
+        rec.cls("hourly_result_differs_from_hybrid")
+        rec.nontriv((case["method"], n, round(h, 3)))
+    rec.sample({"method": case["method"], "N": n, "H": h, "reported": [rmx, rmn], "fresh_hourly": [fmx, fmn], "hybrid_before": list(hyb)})
+
+
+def search_after_hourly(ctx):
+    gs.run_stratified(ctx, ctx.total(16, 200), outcomes=["inside", "edge_large"], methods=["NEARSQUARE", "RECTANGLE", "BIRECTANGLE"],
+                      months=st.just(12))
+
+
 def _scn(methods=None, months=None):
     # 'continue' forced on in half of the cases so that the clamped / unmet classes are reached
     return st.builds(lambda s, c: dict(s, **({"continue": True} if c else {})), gs.scenario(methods=methods, months=months),
@@ -130,4 +178,5 @@ def search_l3(ctx):
 SUBS = [
     Sub("reports_l2", check_l2, search_l2, shards=lambda t: 16),
     Sub("reports_l3", check_l3, search_l3, shards=lambda t: 4 if t == "quick" else 12),
+    Sub("reports_after_hourly_size", check_after_hourly, search_after_hourly, shards=lambda t: 16),
 ]
